@@ -44,7 +44,10 @@ pub fn run(ctx: &Ctx) -> bool {
         }
         "C09" => c09::run(ctx),
         "C10" => c10::run(ctx),
-        "C11" => c11::run(ctx),
+        "C11" => {
+            c11::run(ctx);
+            c11::run_churn(ctx)
+        }
         "C12" => c12::run(ctx),
         "C13" => {
             c13::run(ctx);
